@@ -81,6 +81,9 @@ const (
 
 // Run renders statements in a fresh root scope holding data
 func (in *Interp) Run(stmts []Stmt, data map[string]Value) (string, error) {
+	if _, reserved := data["loop"]; reserved {
+		return "", evalErr("loop cannot be supplied as data")
+	}
 	root := NewScope(nil)
 	for k, v := range data {
 		root.vars[k] = v
